@@ -30,6 +30,8 @@ inductive Form where
   | deff (f : Name) (refs : List Ref)    -- (define (f) (list ref…))
   | defs (f : Name) (x : Name)           -- (define (f v) (set! x v) 0)
   | set (x : Name) (n : Int)             -- (begin (set! x n) 0)
+  | defn (x : Name) (k : Int)            -- (define x <native k>): a global holding a built-in procedure (`+` for 0, `*` for 1)
+  | setn (x : Name) (k : Int)            -- (begin (set! x <native k>) 0)
   | call (f : Name)                      -- (f)
   | calls (f : Name) (n : Int)           -- (f n)
   | read (x : Name)                      -- x
@@ -46,12 +48,12 @@ deriving DecidableEq, Repr
 def showInts (l : List String) : String := "(" ++ " ".intercalate l ++ ")"
 
 def Form.defines : Form → Option Name
-  | .defc x _ | .deff x _ | .defs x _ => some x
+  | .defc x _ | .deff x _ | .defs x _ | .defn x _ => some x
   | _ => none
 
 def Form.uses : Form → List Name
   | .deff _ refs => refs.map (fun | .read n => n | .call n => n)
-  | .defs _ x | .set x _ | .read x => [x]
+  | .defs _ x | .set x _ | .setn x _ | .read x => [x]
   | .call f | .calls f _ => [f]
   | _ => []
 
@@ -63,6 +65,7 @@ inductive Val where
   | int (n : Int)
   | fn (refs : List (Bool × Nat))   -- (isCall, cell)
   | setter (cell : Nat)
+  | nat (k : Int)                   -- a built-in procedure; `(k)` with no operands returns k
 deriving DecidableEq, Repr, Inhabited
 
 structure State where
@@ -78,6 +81,7 @@ def valStr (cells : List Val) : Nat → Val → Option String
   | _, .int n => some (toString n)
   | _, .fn _ => some "#<function>"
   | _, .setter _ => some "#<function>"
+  | _, .nat _ => some "#<function>"
 
 def callFn (cells : List Val) : Nat → Nat → Option String
   | 0, _ => none
@@ -88,6 +92,7 @@ def callFn (cells : List Val) : Nat → Nat → Option String
           if isCall then callFn cells fuel cell
           else (cells[cell]?).bind (valStr cells fuel)
         if parts.all Option.isSome then some (showInts (parts.filterMap id)) else none
+    | some (.nat k) => some (toString k)
     | _ => none
 
 /-- Compile a piece: every `define` of the piece gets a new cell, visible to the whole piece. -/
@@ -111,6 +116,8 @@ def runForm (env : List (Name × Nat)) (cells : List Val) : Form → Option (Lis
       | some c, some cx => some (cells.set c (.setter cx), none)
       | _, _ => none
   | .set x n => (lookup env x).map fun c => (cells.set c (.int n), some "0")
+  | .defn x k => (lookup env x).map fun c => (cells.set c (.nat k), none)
+  | .setn x k => (lookup env x).map fun c => (cells.set c (.nat k), some "0")
   | .call f => (lookup env f).bind fun c => (callFn cells 64 c).map fun r => (cells, some r)
   | .calls f n =>
       (lookup env f).bind fun c =>
@@ -224,6 +231,7 @@ inductive Val where
   | int (n : Int)
   | fn (refs : List (Bool × Nat))   -- (isCall, slot): CALLGLOBAL* / PUSH payloads
   | setter (slot : Nat)             -- SET payload
+  | nat (k : Int)                   -- a built-in procedure; `(k)` with no operands returns k
 deriving DecidableEq, Repr, Inhabited
 
 def Val.slots : Val → List Nat
@@ -300,6 +308,7 @@ def callFn (g : List Val) : Nat → Nat → Option String
           if isCall then callFn g fuel slot
           else (g[slot]?).map valStr
         if parts.all Option.isSome then some (showInts (parts.filterMap id)) else none
+    | some (.nat k) => some (toString k)
     | _ => none
 
 def runForm (m : SymMap) (g : List Val) : Form → Option (List Val × Option String)
@@ -314,6 +323,8 @@ def runForm (m : SymMap) (g : List Val) : Form → Option (List Val × Option St
       | some c, some cx => some (gset g c (.setter cx), none)
       | _, _ => none
   | .set x n => (m.get x).bind fun c => if c < g.length then some (g.set c (.int n), some "0") else none
+  | .defn x k => (m.get x).map fun c => (gset g c (.nat k), none)
+  | .setn x k => (m.get x).bind fun c => if c < g.length then some (g.set c (.nat k), some "0") else none
   | .call f => (m.get f).bind fun c => (callFn g 64 c).map fun r => (g, some r)
   | .calls f n =>
       (m.get f).bind fun c =>
